@@ -92,15 +92,19 @@ func TestVerifC19Server(t *testing.T) {
 		}
 	}
 	// ---- a server with the switch off makes no request, whatever it hosts
-	off := vStartServer("c19off", func(c *Config) { c.Telemetry.Enabled = false; c.Telemetry.IntervalSeconds = 1 })
-	off.createStream("secret-stream-off", 1, nil)
-	time.Sleep(300 * time.Millisecond)
-	created := off.s.telemetry != nil
-	off.stop()
-	n := len(rec.snapshot())
-	out.emit(vM{"k": "server", "enabled": false, "requests": n, "collector_created": created})
-	if n != 0 || created {
-		out.emit(vM{"k": "violation", "sig": "disabled-server-sends", "what": fmt.Sprintf("server with telemetry disabled: %d requests, collector created=%v", n, created), "case": vM{"k": "server", "enabled": false}})
+	// (also with the other telemetry settings at values that need repair: a zero or negative interval)
+	for i, iv := range []int{1, 0, -3} {
+		off := vStartServer(fmt.Sprintf("c19off%d", i), func(c *Config) { c.Telemetry.Enabled = false; c.Telemetry.IntervalSeconds = iv })
+		off.createStream("secret-stream-off", 1, nil)
+		time.Sleep(300 * time.Millisecond)
+		created := off.s.telemetry != nil
+		off.stop()
+		n := len(rec.snapshot())
+		out.emit(vM{"k": "server", "enabled": false, "interval": iv, "requests": n, "collector_created": created})
+		if n != 0 || created {
+			out.emit(vM{"k": "violation", "sig": "disabled-server-sends", "what": fmt.Sprintf("server with telemetry disabled (interval %d s): %d requests, collector created=%v", iv, n, created), "case": vM{"k": "server", "enabled": false, "interval": iv}})
+			break
+		}
 	}
 	// ---- an enabled server: what is in the report
 	on := vStartServer("c19on", func(c *Config) {
